@@ -1501,6 +1501,8 @@ class Stream(AbstractStream):
             else:
                 self.copy_flow(streams[0])
         else:
+            # Inlet enthalpies must be read before the receiver changes; it may be one of the inlets
+            if energy_balance: H = sum([i.H for i in streams], Q)
             self.P = P = min([i.P for i in streams])
             if conserve_phases:
                 phases = self.phase + ''.join([i.phase for i in others])
@@ -1508,7 +1510,6 @@ class Stream(AbstractStream):
             if vle:
                 self._imol.mix_from([i._imol for i in streams])
                 if energy_balance: 
-                    H = sum([i.H for i in streams], Q)
                     self.vle(H=H, P=P)
                 else:
                     self.vle(T=self.T, P=P)
@@ -1516,7 +1517,6 @@ class Stream(AbstractStream):
             else:
                 if energy_balance: 
                     self._imol.mix_from([i._imol for i in streams])
-                    H = sum([i.H for i in streams], Q)
                     if conserve_phases: 
                         self.H = H
                     else:
